@@ -459,6 +459,9 @@ func TestC03(t *testing.T) {
 
 	// 1. the Elements mini evaluator agrees with btcd on the swap script
 	maxLen := 4
+	if mc.Tier() == "thorough" {
+		maxLen = 5
+	}
 	x := c03CrossCheck(maxLen)
 	if len(x.Mismatches) > 0 || x.Unsupp > 0 {
 		for _, m := range x.Mismatches {
@@ -485,7 +488,7 @@ func TestC03(t *testing.T) {
 	rep.Need = []string{
 		"btc:preimage:right:valid_immediately", "btc:coop:right:valid_immediately", "btc:csv:right:valid_at_1008_not_1007",
 		"btc:preimage:wrong_preimage:rejected", "btc:coop:wrong_taker_key:rejected", "btc:csv:wrong_maker_key:rejected",
-		"btc:amount_mutation_breaks_signature", "btc:infeasible_amount_le_fee:nonpositive_output_published", "btc:excluded:validator_rejects_opening",
+		"btc:amount_mutation_breaks_signature", "btc:infeasible_amount_le_fee:nonpositive_output_published",
 		"lbtc:preimage:right:valid_immediately", "lbtc:coop:right:valid_immediately", "lbtc:csv:right:valid_at_csv_not_before",
 		"lbtc:preimage:wrong_preimage:rejected", "lbtc:coop:wrong_taker_key:rejected", "lbtc:csv:wrong_maker_key:rejected",
 		"lbtc:amount_mutation_breaks_signature", "lbtc:fee_answer_0:refused", "lbtc:infeasible_amount_le_fee",
